@@ -119,6 +119,16 @@ func c20One(c *Ctx, i int, raw string, off int, spare int) {
 			if (err == nil) != ok || (ok && out != want) {
 				c.Violate(i, "Unmarshal(string)", "differs from reference unquote", map[string]interface{}{"in": q(raw), "got": q(out), "err": errStr(err), "want": q(want), "wantok": ok})
 			}
+			// the strict mode of the same routine (lone surrogates rejected) through every destination
+			// that unquotes: *string, interface{}, a []interface{} element, a map value and an object key
+			wantS, okS := ref.Unquote(raw, false)
+			for _, route := range c20StrictRoutes {
+				gotS, errS := route.run(string(doc))
+				if (errS == nil) != okS || (okS && gotS != wantS) {
+					c.Violate(i, "UseUnicodeErrors.Unmarshal("+route.name+")", "differs from reference unquote with lone surrogates rejected", map[string]interface{}{"in": q(raw), "got": q(gotS), "err": errStr(errS), "want": q(wantS), "wantok": okS})
+				}
+			}
+			c.Count("strict_surrogate_routes_checked", int64(len(c20StrictRoutes)))
 			var out2 string
 			err = sonic.ConfigStd.UnmarshalFromString(place.Str(doc), &out2)
 			var sout string
@@ -266,4 +276,57 @@ func runC20(c *Ctx) {
 		c.Count("random_cases", 1)
 		c.Sample("random", 3, q(raw))
 	}
+}
+
+
+var c20Strict = sonic.Config{UseUnicodeErrors: true}.Froze()
+
+type c20Route struct {
+	name string
+	run  func(lit string) (string, error)
+}
+
+var c20StrictRoutes = []c20Route{
+	{"*string", func(lit string) (string, error) {
+		var s string
+		err := c20Strict.UnmarshalFromString(lit, &s)
+		return strings.Clone(s), err
+	}},
+	{"interface{}", func(lit string) (string, error) {
+		var v interface{}
+		err := c20Strict.UnmarshalFromString(lit, &v)
+		s, _ := v.(string)
+		return strings.Clone(s), err
+	}},
+	{"[]interface{} element", func(lit string) (string, error) {
+		var v []interface{}
+		err := c20Strict.UnmarshalFromString("[1,"+lit+"]", &v)
+		if err != nil || len(v) != 2 {
+			return "", err
+		}
+		s, _ := v[1].(string)
+		return strings.Clone(s), err
+	}},
+	{"map[string]interface{} value", func(lit string) (string, error) {
+		var v map[string]interface{}
+		err := c20Strict.UnmarshalFromString(`{"k":`+lit+`}`, &v)
+		s, _ := v["k"].(string)
+		return strings.Clone(s), err
+	}},
+	{"object key", func(lit string) (string, error) {
+		var v interface{}
+		err := c20Strict.UnmarshalFromString(`{`+lit+`:1}`, &v)
+		if err != nil {
+			return "", err
+		}
+		for k := range v.(map[string]interface{}) {
+			return strings.Clone(k), nil
+		}
+		return "", nil
+	}},
+	{"struct field", func(lit string) (string, error) {
+		var v struct{ S string }
+		err := c20Strict.UnmarshalFromString(`{"S":`+lit+`}`, &v)
+		return strings.Clone(v.S), err
+	}},
 }
